@@ -87,6 +87,9 @@ class Engine(object):
         self.t0 = time.time()
         self.on_path_end = None
         self.nvars = 0
+        self.nontrivial_keys = set()
+        self.nontrivial_paths = 0
+        self._path_nontrivial = False
         # optional re-decision of sampled discharged obligations by other solvers (thorough tier)
         self.second_every = 0
         self.second = {'checked': 0, 'agree': 0, 'disagree': 0, 'undecided': 0, 'solvers': []}
@@ -128,6 +131,7 @@ class Engine(object):
         self.choices = []
         self.zsynced = False
         self.path_notes = []
+        self._path_nontrivial = False
 
     def _end(self):
         self.cur.done = True
@@ -139,6 +143,8 @@ class Engine(object):
             else:
                 break
         self.paths += 1
+        if self._path_nontrivial:
+            self.nontrivial_paths += 1
         if self.on_path_end:
             self.on_path_end(self)
 
@@ -394,6 +400,8 @@ class Engine(object):
 
     def count(self, key, n=1):
         self.counters[key] = self.counters.get(key, 0) + n
+        if key in self.nontrivial_keys:
+            self._path_nontrivial = True
 
     def _violate(self, label, detail, model, sig):
         key = sig or label
